@@ -23,10 +23,11 @@ META = {
         "C18.P1 _perform_transition: unknown name raises; wrong source raises before any effect; exactly one write of the current state = transition.destination; order and exactly-once of leave/enter/called",
         "C18.O1 State.enter/leave: the active flag of the step is written before enter handlers run (they re-enter the engine), True in enter / False in leave on every path, one fire per call with the right event, symmetric parent propagation",
         "C18.T1 shipped machines: unique state/transition names, one initial state = initial current state, transitions reference declared states, every wrapper performs a declared transition, lock-step walk coincides with the LCA walk for all 5+9+17 transitions",
+        "C18.O2 the whole ancestor walk of enter / leave, evaluated on an abstract forest with composites of depth 1 and 2: exactly the states below the nearest common ancestor are left / entered (equal depth: holds; different depth: known finding)",
         "C18.L1 the check-then-act in _perform_transition is under one lock although it is entered from timer threads and caller threads",
         "C18.E1 Event/EventProducer: every fire dispatches to every registered callback exactly once (no re-entrancy guard drops nested events)",
     ],
-    "does_not_decide": ["arbitrary generated machine definitions (the lock-step ancestor walk is only checked on the three shipped trees)", "actual interleavings of two concurrent triggers"],
+    "does_not_decide": ["machine definitions deeper than the abstract forest of C18.O2 (two roots, composites of depth 1 and 2)", "actual interleavings of two concurrent triggers"],
     "assumptions": ["EventProducer.fire calls the registered handlers synchronously (checked in C18.O1 only as far as State uses events.fire)"],
 }
 
@@ -185,6 +186,8 @@ def _enclosing_with_lock(fn, target):
 def check_state_methods(ctx):
     repo = ctx.repo
     facts = {}
+    walks = {}
+    pending = {}
     for meth, flag, event in (("enter", True, "enter"), ("leave", False, "leave")):
         f = repo.method("State", meth, inherited=False)
         ctx.touch(f)
@@ -231,11 +234,20 @@ def check_state_methods(ctx):
                 continue
             table = _propagation_table(cfg, props, meth, param, _pure_state_helpers(repo))
             facts[meth] = table
-            ok = table is not None and all(v == "canonical" for v in table.values())
-            ctx.ob("C18.O1", q, ok, "parent propagation: ascend iff a parent exists and the other state is absent or has a different parent, passing the other state's parent (exactly one call)" if ok else
-                   f"parent propagation deviates from `if parent is not None and (OTHER is None or OTHER.parent != parent): parent.{meth}(OTHER.parent or None)`: {table}", key="propagation-cond", where=f.where)
+            walks[meth] = (cfg, props, param)
+            pending[meth] = (q, table, f.where)
+    # the whole walk first: if it is exact for equal and for different depths, the step rule below (which describes today's
+    # lock-step protocol: compare the parents, pass the other state's parent on) has nothing left to say
+    exact = False
+    if "enter" in walks and "leave" in walks:
+        exact = _check_ancestor_walk(ctx, walks, _pure_state_helpers(repo))
+    for meth, (q, table, where_) in pending.items():
+        ok = exact or (table is not None and all(v == "canonical" for v in table.values()))
+        ctx.ob("C18.O1", q, ok, ("parent propagation: the whole ancestor walk is exact (C18.O2)" if exact else
+                                  "parent propagation: ascend iff a parent exists and the other state is absent or has a different parent, passing the other state's parent (exactly one call)") if ok else
+               f"parent propagation deviates from `if parent is not None and (OTHER is None or OTHER.parent != parent): parent.{meth}(OTHER.parent or None)`: {table}", key="propagation-cond", where=where_)
     if "enter" in facts and "leave" in facts:
-        ok = facts["enter"] == facts["leave"]
+        ok = exact or facts["enter"] == facts["leave"]
         ctx.ob("C18.O1", "State.enter/leave", ok, "enter and leave propagate to the parent under the same condition (siblings agree)" if ok else
                f"enter and leave disagree on parent propagation: {facts['enter']} vs {facts['leave']}", key="siblings", where="secsgem/common/state_machine.py")
     # active property returns the flag
@@ -296,6 +308,76 @@ def _pure_state_helpers(repo):
         exec(compile(mod, f"<abstract {name}>", "exec"), ns)  # noqa: S102 - a read-only predicate, applied to abstract states only
         out[name] = ns[name]
     return out
+
+
+def _check_ancestor_walk(ctx, walks, helpers):
+    """The whole walk, not one step: on a small forest (two roots, composites of depth 1 and 2) the guards and arguments of
+    the propagation calls are evaluated from the state left / entered upwards, for every ordered pair of states neither of
+    which contains the other.  The states visited must be exactly the chain from the state up to, and excluding, the
+    nearest common ancestor of the two.  Pure evaluation of the guard expressions on abstract states; no library code runs."""
+    class S:
+        def __init__(self, parent, label):
+            self.parent = parent
+            self._parent = parent
+            self.label = label
+
+    for name, fn in (helpers or {}).items():
+        setattr(S, name, fn)
+    a, p = S(None, "A"), S(None, "P")
+    b, x, q = S(a, "B"), S(p, "X"), S(p, "Q")
+    z, z2 = S(q, "Z"), S(q, "Z2")
+    states = [a, b, p, x, q, z, z2]
+
+    def chain(s):
+        out = []
+        while s is not None:
+            out.append(s)
+            s = s.parent
+        return out
+
+    def visited(meth, start, other):
+        cfg, props, param = walks[meth]
+        cur, arg, seen = start, other, []
+        for _ in range(8):
+            seen.append(cur.label)
+            env = {"self": cur, param: arg}
+            try:
+                active = []
+                for node in props:
+                    if all(bool(eval(compile(ast.Expression(t), "<cond>", "eval"), {}, env)) == v for t, v in cfg.dominating_conditions(node)):  # noqa: S307 - abstract values only
+                        call = next(c for c in node.calls if (call_name(c) or "").endswith(f"parent.{meth}"))
+                        active.append(eval(compile(ast.Expression(call.args[0]), "<arg>", "eval"), {}, env))  # noqa: S307
+            except Exception as exc:
+                raise AnalysisError(f"State.{meth}: propagation guard not evaluable on the abstract states ({type(exc).__name__}: {exc})")
+            if not active:
+                return seen
+            if len(active) > 1 or cur.parent is None:
+                return seen + ["<more than one call / call on a missing parent>"]
+            cur, arg = cur.parent, active[0]
+        return seen + ["<does not end>"]
+
+    bad = {"equal": [], "uneven": []}
+    n = 0
+    for s in states:
+        for d in states:
+            if s is d or s in chain(d) or d in chain(s):
+                continue
+            n += 1
+            common = next((k for k in chain(s) if k in chain(d)), None)
+            left = [k.label for k in chain(s)[: chain(s).index(common)]] if common is not None else [k.label for k in chain(s)]
+            entered = [k.label for k in chain(d)[: chain(d).index(common)]] if common is not None else [k.label for k in chain(d)]
+            got_l, got_e = visited("leave", s, d), visited("enter", d, s)
+            if got_l != left or got_e != entered:
+                kind = "equal" if len(chain(s)) == len(chain(d)) else "uneven"
+                bad[kind].append(f"{s.label}->{d.label}: leaves {got_l} (exited: {left}), enters {got_e} (entered: {entered})")
+    ctx.floor("state pairs walked on the abstract forest", n, 20)
+    where = "secsgem/common/state_machine.py"
+    ctx.ob("C18.O2", "State.enter/leave", not bad["equal"], "between states of equal depth exactly the states below the nearest common ancestor are left and entered" if not bad["equal"] else
+           f"between states of equal depth the walk does not stop at the nearest common ancestor: {bad['equal'][:2]}", key="ancestor-walk equal depth", where=where)
+    ctx.ob("C18.O2", "State.enter/leave", not bad["uneven"], "between states of different depth exactly the states below the nearest common ancestor are left and entered" if not bad["uneven"] else
+           f"the two parent chains are climbed in lock step (the other state's parent is compared with this state's parent), which finds the common ancestor only for states of equal depth: {bad['uneven'][:2]} - a composite state that is not exited fires leave and enter",
+           key="ancestor-walk uneven depth", where=where)
+    return not bad["equal"] and not bad["uneven"]
 
 
 def _propagation_table(cfg, props, meth, param, helpers=None):
